@@ -45,13 +45,30 @@ def check(run):
                b"[1//c\n,2]", b"/* unterminated", b"// only a comment", b"// c\n", b"/**/", b" \t\r\n", b"", b"\x00", b" \x00[1]", b"[1]\x00[", b"\"\\u00:0\"", b"\"\\u00`0\"", b"\"\\uD83D\"",
                b"\"\\x\"", b"\"\\", b"'\\''", b"\"\\/\"", b"\"\x01\"", b"\xff", b"[\xff]", b"\"\xff\xfe\"", b"{\"a\":1,\"a\":2}", b"1" * 63, b"1" * 64, b"1" * 65, b"0." + b"0" * 61 + b"1",
                b"[" + b"1" * 64 + b"]"]
+        # every byte value in every digit position of a \\u escape and after a backslash (the leaf tables of the reader)
+        for c in range(1, 256):
+            for pos in range(4):
+                digits = [b"0", b"0", b"4", b"1"]
+                digits[pos] = bytes([c])
+                ext.append(b'"\\u' + b"".join(digits) + b'"')
+            ext.append(b'"\\' + bytes([c]) + b'"')
+            ext.append(b"[1" + bytes([c]) + b"2]")
         mlines = ["J 10 - " + hx(s) for s in muts + ext]
         L = lines + mlines
         mism, mo, io = vlib.correspond(run, model, impl, L, cfg, "dialect " + cfg)
         all_mism += [(cfg, m) for m in mism]
         comments = cfg[1] == "1"
-        for l, o in zip(L, io):
+        for l, o, mdl in zip(L, io, mo):
             if o == "<crash>":
+                continue
+            # the model accepts exactly the dialect of Spec/Dialect.v (C10_accepts_exactly_the_dialect): an input on which
+            # model and library disagree about Ok / not Ok (or about the value) is a text inside the dialect that is
+            # refused, or outside it that is accepted
+            if (mdl.split(" ")[0] == "Ok") != (o.split(" ")[0] == "Ok"):
+                oracle_fail.append((cfg, l, "accepted if and only if in the dialect (model, proved equal to Spec/Dialect.v: %s)" % mdl[:60], o[:100]))
+                continue
+            if mdl.split(" ")[0] == "Ok" and mdl.split(" ")[3:] != o.split(" ")[3:]:
+                oracle_fail.append((cfg, l, "the value the dialect assigns: %s" % " ".join(mdl.split(" ")[3:])[:100], o[:100]))
                 continue
             text = bytes.fromhex(l.split(" ")[3]) if l.split(" ")[3] != "-" else b""
             code = o.split(" ")[0]
